@@ -3,7 +3,7 @@ use crate::util::*;
 use arrayvec::ArrayVec;
 use scpi::error::{Error, ErrorQueue};
 
-fn drive<Q: ErrorQueue>(q: &mut Q, ops: &str) -> String {
+fn drive<Q: ErrorQueue + Rest>(q: &mut Q, ops: &str) -> String {
     let mut out: Vec<String> = Vec::new();
     for op in ops.split(',').filter(|s| !s.is_empty()) {
         match op.as_bytes()[0] {
@@ -16,13 +16,24 @@ fn drive<Q: ErrorQueue>(q: &mut Q, ops: &str) -> String {
             _ => q.push_back_error(parse_error(op)),
         }
     }
-    // drain to show final content
+    // show the final content: the first entries are drained through pop_front_error (the library's Vec queue removes at
+    // the front in O(n), so draining a 200 000-entry queue entirely would take O(n^2) in THIS harness), the rest is read
+    // in place; the reported length must agree with what is there
     out.push("|".into());
-    while let Some(e) = q.pop_front_error() {
-        out.push(show_error(&e));
+    let mut drained = 0;
+    while drained < 2000 {
+        match q.pop_front_error() { Some(e) => { out.push(show_error(&e)); drained += 1 } None => break }
     }
+    let rest = q.rest();
+    if q.num_errors() != rest.len() { out.push(format!("LENGTH-DIFFERS[{}/{}]", q.num_errors(), rest.len())); }
+    for e in rest.iter() { out.push(show_error(e)); }
     out.join(" ")
 }
+
+/// read access to what a queue holds (both provided queues are slices underneath)
+trait Rest { fn rest(&self) -> Vec<Error>; }
+impl Rest for Vec<Error> { fn rest(&self) -> Vec<Error> { self.iter().cloned().collect() } }
+impl<const N: usize> Rest for ArrayVec<Error, N> { fn rest(&self) -> Vec<Error> { self.iter().cloned().collect() } }
 
 macro_rules! caps {
     ($cap:expr, $ops:expr; $($n:literal),*) => {
